@@ -8,6 +8,8 @@ def optPatStr : Option Pat → String
   | some p => s!"(some {patToStr p})"
   | none => "none"
 
+def fuel : Nat := 4000
+
 def handle (line : String) : String :=
   match parseAll line with
   | none => "bad-request"
@@ -46,6 +48,57 @@ def handle (line : String) : String :=
           let verdict := if s3.claims.isEmpty then "ok" else "rej"
           s!"({verdict} {stToStr s1} {stToStr s2} {stToStr s3})"
       | _, _, _ => "bad-request"
+    | "expand", [p] =>
+      match npatOfSexp p with
+      | some p => patToStr p.expand
+      | none => "bad-request"
+    | "nfree", [n, p] =>
+      match nat? n, npatOfSexp p with
+      | some n, some p => (match NPat.evarIsFreeF fuel n p with | some b => toString b | none => "fuel")
+      | _, _ => "bad-request"
+    | "ninst", [d, p] =>
+      match nmapOfSexp d, npatOfSexp p with
+      | some d, some p => (match NPat.instF fuel d p with | some r => npatToStr r | none => "fuel")
+      | _, _ => "bad-request"
+    | "nesubst", [n, plug, p] =>
+      match nat? n, npatOfSexp plug, npatOfSexp p with
+      | some n, some plug, some p => (match NPat.esubF fuel n plug p with | some r => npatToStr r | none => "fuel")
+      | _, _, _ => "bad-request"
+    | "nssubst", [n, plug, p] =>
+      match nat? n, npatOfSexp plug, npatOfSexp p with
+      | some n, some plug, some p => (match NPat.ssubF fuel n plug p with | some r => npatToStr r | none => "fuel")
+      | _, _, _ => "bad-request"
+    | "peq", [a, b] =>
+      match npatOfSexp a, npatOfSexp b with
+      | some a, some b => (match NPat.peqF fuel a b with | some r => toString r | none => "fuel")
+      | _, _ => "bad-request"
+    | "match", [p, i, s] =>
+      match npatOfSexp p, npatOfSexp i, nmapOfSexp s with
+      | some p, some i, some s =>
+        (match NPat.matchF fuel p i s with
+         | none => "fuel" | some none => "none" | some (some r) => s!"(some {substToStr r})")
+      | _, _, _ => "bad-request"
+    | "matchlist", [.list eqs] =>
+      match eqs.mapM (fun e => match e with
+          | .list [p, i] => do pure ((← npatOfSexp p), (← npatOfSexp i))
+          | _ => none) with
+      | some eqs =>
+        (match NPat.matchListF fuel eqs [] with
+         | none => "fuel" | some none => "none" | some (some r) => s!"(some {substToStr r})")
+      | none => "bad-request"
+    | "nmatches", [d, a, p] =>
+      match npatOfSexp d, nat? a, npatOfSexp p with
+      | some d, some a, some p =>
+        (match NPat.notationMatchesF fuel d a p with
+         | none => "fuel" | some none => "none"
+         | some (some r) => "(some (" ++ " ".intercalate (r.map npatToStr) ++ "))")
+      | _, _, _ => "bad-request"
+    | "nmetavars", [p] =>
+      match npatOfSexp p with
+      | some p => (match NPat.metavarsF fuel p with
+          | some l => natsToStr (l.eraseDups.toArray.qsort (· < ·)).toList
+          | none => "fuel")
+      | none => "bad-request"
     | _, _ => "bad-request"
   | _ => "bad-request"
 
